@@ -200,6 +200,44 @@ def gain_cert(mdp, pick, E, eps_int):
     return cert
 
 
+def attach_returned(events, st, solver):
+    """Compare the SolverState RETURNED by solve() with what the solver held at its solve_end event, and
+    (periodic VI) the returned value history, slot by slot, with the recorded iterates."""
+    end = next((e for e in reversed(events) if e["e"] == "solve_end"), None)
+    if end is None:
+        return
+    ok = True
+    try:
+        ok = ok and int(st.info.iteration) == end["it"]
+        ok = ok and np.array_equal(np.asarray(st.values), end["values"])
+        if end.get("policy") is None:
+            ok = ok and st.policy is None
+        else:
+            ok = ok and st.policy is not None and np.array_equal(np.asarray(st.policy), end["policy"])
+        if "gain" in end:
+            ok = ok and float(st.info.gain) == end["gain"]
+        if hasattr(st.info, "history_index"):
+            ok = ok and int(st.info.history_index) == end.get("hidx")
+            ok = ok and int(st.info.period) == int(solver.period)
+    except Exception:
+        ok = False
+    end["retok"] = bool(ok)
+    vh = getattr(st.info, "value_history", None) if hasattr(st, "info") else None
+    if vh is not None:
+        vh = np.asarray(vh)
+        p = int(solver.period)
+        hidx = int(st.info.history_index)
+        iterates = {e["it"]: e["values"] for e in events if e["e"] in ("sweep", "solve_begin")}
+        n = end["it"]
+        good = vh.shape[0] == p + 1
+        for j in range(0, min(p, n) + 1):
+            if not good:
+                break
+            if (n - j) in iterates:
+                good = bool(np.array_equal(vh[(hidx - j) % (p + 1)], iterates[n - j]))
+        end["vhok"] = bool(good)
+
+
 def build_solver(job):
     mdp = job["mdp"]
     kind = job["kind"]
@@ -254,7 +292,9 @@ def run_job(job):
         results = []
         for k in job["calls"]:
             try:
-                results.append(solver.solve(max_iterations=k))
+                st = solver.solve(max_iterations=k)
+                results.append(st)
+                attach_returned(rec.events, st, solver)
             except Exception as ex:  # an exception inside solve() is an observation
                 error = f"{type(ex).__name__}: {str(ex)[:200]}"
                 break
@@ -352,7 +392,8 @@ def project(job, raw):
                "it": ev["it"], "k": ev.get("k", 0), "vok": vok, "v": v,
                "cok": False, "c": 0, "inf": False, "gok": False, "g": 0,
                "perm": [], "permref": [], "pol": [], "polok": True, "pick": [], "hidx": ev.get("hidx", 0),
-               "nchanged": ev.get("n_changed", 0), "evals": [], "polidx": []}
+               "nchanged": ev.get("n_changed", 0), "evals": [], "polidx": [],
+               "retok": bool(ev.get("retok", True)), "vhok": bool(ev.get("vhok", True))}
         if "conv" in ev:
             if ev["conv"] == float("inf"):
                 rec["inf"] = True
